@@ -117,6 +117,24 @@ std::string one(Blocks& B, const std::string& tok) {
         else return "bad-op";
         return std::to_string(r);
     }
+    if (k == 'v') {
+        // BlockTable::add_value – what the reader does for every table entry of a file (equal values are kept apart)
+        CDNS::index_t r = 0;
+        if (T == "ip") { CDNS::StringItem x; x.data = rec::X(a[2]); r = b.m_ip_address.add_value(std::move(x)); }
+        else if (T == "nr") { CDNS::StringItem x; x.data = rec::X(a[2]); r = b.m_name_rdata.add_value(std::move(x)); }
+        else if (T == "ct") { auto p = vh::split(a[2], '.'); CDNS::ClassType c; c.type = rec::U(p[0]); c.class_ = rec::U(p[1]); r = b.m_classtype.add_value(std::move(c)); }
+        else if (T == "qq") { auto p = vh::split(a[2], '.'); CDNS::Question q; q.name_index = rec::U(p[0]); q.classtype_index = rec::U(p[1]); r = b.m_qrr.add_value(std::move(q)); }
+        else if (T == "ql") { CDNS::IndexListItem x; x.list = parse_list(a[2]); r = b.m_qlist.add_value(std::move(x)); }
+        else if (T == "rl") { CDNS::IndexListItem x; x.list = parse_list(a[2]); r = b.m_rrlist.add_value(std::move(x)); }
+        else if (T == "rr") { auto p = vh::split(a[2], '.'); CDNS::RR x; x.name_index = rec::U(p[0]); x.classtype_index = rec::U(p[1]);
+                              x.ttl = optnum<uint32_t>(p[2]); x.rdata_index = optnum<CDNS::index_t>(p[3]); r = b.m_rr.add_value(std::move(x)); }
+        else if (T == "qs") { auto x = parse_qs(a[2]); r = b.m_qr_sig.add_value(std::move(x)); }
+        else if (T == "md") { auto p = vh::split(a[2], '.'); CDNS::MalformedMessageData m; m.server_address_index = optnum<CDNS::index_t>(p[0]);
+                              m.server_port = optnum<uint16_t>(p[1]); m.mm_transport_flags = optnum<CDNS::QueryResponseTransportFlagsMask>(p[2]);
+                              if (p[3] != "-") m.mm_payload = rec::X(p[3]); r = b.m_malformed_message_data.add_value(std::move(m)); }
+        else return "bad-op";
+        return std::to_string(r);
+    }
     if (k == 'g') {
         CDNS::index_t i = static_cast<CDNS::index_t>(rec::U(a[2]));
         try {
